@@ -56,8 +56,9 @@ class GroundedPrecondition:
         :param parameters_map: the mapping between the lifted and the grounded objects.
         :return: the grounded objects that should/n't be equal.
         """
+        # names that are not parameters (domain constants) denote themselves.
         return {
-            (parameters_map[obj1], parameters_map[obj2])
+            (parameters_map.get(obj1, obj1), parameters_map.get(obj2, obj2))
             for obj1, obj2 in equality_preconditions
         }
 
